@@ -128,6 +128,12 @@ template <class S, size_t DIM> void intervals(vf::Ctx& c, const char* tname) {
     Interval<S, DIM> a(lo1, hi1), b(lo2, hi2);
     Interval<S, DIM> u = a; u.include(b);
     { Interval<S, DIM> v(lo2, hi2); v = a; v.include(b); if ((i + j) % 2) u = v; }   // every other pair goes through an interval overwritten by assignment
+    {   // a box built from the hull (an interval that has been grown by include()) reproduces the hull
+      AxisAlignedBoundingBox<S, DIM> hb(u); Interval<S, DIM> back = hb.toInterval();
+      long double scale = 0; for (size_t d = 0; d < DIM; ++d) scale = std::max<long double>(scale, std::max(fabsl((long double)u.lower()[d]), fabsl((long double)u.upper()[d])));
+      if ((back.lower() - u.lower()).template cast<long double>().norm() > 4 * (long double)ulp<S>((S)scale) || (back.upper() - u.upper()).template cast<long double>().norm() > 4 * (long double)ulp<S>((S)scale))
+        c.violation("AxisAlignedBoundingBox.fromInterval.afterInclude", vf::JO().str("type", tname).i("dim", DIM).raw("lo1", vj(lo1)).raw("hi1", vj(hi1)).raw("lo2", vj(lo2)).raw("hi2", vj(hi2)).done(), vf::JO().raw("box_lower", vj(back.lower())).raw("box_upper", vj(back.upper())).raw("hull_lower", vj(u.lower())).raw("hull_upper", vj(u.upper())).done());
+    }
     c.eval(); c.nontrivial();
     bool ok = true; for (size_t d = 0; d < DIM; ++d) if (u.lower()[d] != std::min(lo1[d], lo2[d]) || u.upper()[d] != std::max(hi1[d], hi2[d])) ok = false;
     if (!ok) c.violation("Interval.include", vf::JO().str("type", tname).i("dim", DIM).raw("lo1", vj(lo1)).raw("hi1", vj(hi1)).raw("lo2", vj(lo2)).raw("hi2", vj(hi2)).done(), vf::JO().raw("lower", vj(u.lower())).raw("upper", vj(u.upper())).done());
@@ -197,6 +203,13 @@ template <class PT> void extents(vf::Ctx& c, const char* tname) {
       bool same = cp.getScale() == pre.getScale() && as.getScale() == pre.getScale() && cp.getTranslation() == pre.getTranslation() && as.getTranslation() == pre.getTranslation();
       for (int d = 0; d < SIZE; ++d) if (cp.getPointSetMin()[d] != pre.getPointSetMin()[d] || as.getPointSetMin()[d] != pre.getPointSetMin()[d] || cp.getPointSetMax()[d] != pre.getPointSetMax()[d] || as.getPointSetMax()[d] != pre.getPointSetMax()[d] || cp.getPointSetMean()[d] != pre.getPointSetMean()[d] || as.getPointSetMean()[d] != pre.getPointSetMean()[d]) same = false;
       if (!same && side > 0) c.violation("PointSetPreconditioner.copyOrAssignedDiffers", params, "{}");
+    }
+    if (pts.size() >= 3) {   // the same, with the first and the last point of the buffer unchanged by the refill (only interior points differ)
+      PointSet<PT> buf = pts; for (size_t i = 1; i + 1 < buf.size(); ++i) for (int d = 0; d < DIM; ++d) buf[i][d] = (S)(buf[i][d] * (S)0.5 - (S)3);
+      PointSetPreconditioner<PT> pb(buf); for (size_t i = 1; i + 1 < pts.size(); ++i) buf[i] = pts[i]; pb.compute(buf);
+      bool same = pb.getScale() == pre.getScale() || (pb.getScale() != pb.getScale() && pre.getScale() != pre.getScale());
+      for (int d = 0; d < SIZE; ++d) if (pb.getPointSetMin()[d] != pre.getPointSetMin()[d] || pb.getPointSetMax()[d] != pre.getPointSetMax()[d] || pb.getPointSetMean()[d] != pre.getPointSetMean()[d]) same = false;
+      if (!same) c.violation("PointSetPreconditioner.recompute", params, vf::JO().str("history", "compute(buffer); interior points of the buffer refilled in place; compute(buffer)").done());
     }
     {   // a buffer refilled in place (same PointSet object, same size, other coordinates) and computed again by the same preconditioner
       PointSet<PT> buf(pts.size(), PT(PT::Constant((S)9))); PointSetPreconditioner<PT> pb(buf); for (size_t i = 0; i < pts.size(); ++i) buf[i] = pts[i]; pb.compute(buf);
